@@ -15,6 +15,8 @@ pub struct FragCase {
     pub doc: Doc,
     pub width: usize,
     pub rich: bool,
+    #[serde(default)]
+    pub overflow: bool,
 }
 
 #[derive(Debug, Clone)]
@@ -30,6 +32,40 @@ fn scope_of(dom: &Arena, n: usize) -> usize {
         }
     }
     0
+}
+
+
+const INLINE_TAGS: &[&str] = &["span", "em", "strong", "b", "i", "u", "a", "code", "s", "del", "strike", "ins", "font", "small", "big", "tt", "sup", "sub", "abbr", "cite", "q", "kbd", "var", "samp", "mark"];
+
+fn preorder(dom: &Arena, root: usize) -> Vec<usize> {
+    let mut out = vec![];
+    let mut stack = vec![root];
+    while let Some(n) = stack.pop() {
+        out.push(n);
+        for &c in dom.children(n).iter().rev() {
+            stack.push(c);
+        }
+    }
+    out
+}
+
+/// Are the text nodes `p` (earlier) and `f` (later) part of one run of inline content - only inline
+/// elements on the way up to their common ancestor and between them, no <br>, no image, not inside
+/// <pre>?  Then a line break between them can only come from word wrapping.
+fn same_inline_run(dom: &Arena, p: usize, f: usize) -> bool {
+    let pa = dom.ancestors(p);
+    let fa = dom.ancestors(f);
+    let Some(&lca) = pa.iter().find(|a| fa.contains(a)) else { return false };
+    let inline = |n: usize| matches!(dom.name(n), Some(t) if INLINE_TAGS.contains(&t));
+    if !pa.iter().take_while(|a| **a != lca).all(|a| inline(*a)) || !fa.iter().take_while(|a| **a != lca).all(|a| inline(*a)) {
+        return false;
+    }
+    if std::iter::once(lca).chain(dom.ancestors(lca)).any(|a| dom.name(a) == Some("pre")) {
+        return false;
+    }
+    let order = preorder(dom, lca);
+    let (Some(ip), Some(jf)) = (order.iter().position(|n| *n == p), order.iter().position(|n| *n == f)) else { return false };
+    order[ip + 1..jf].iter().all(|n| !dom.is_elem(*n) || (inline(*n) && !dom.is_ignored_elem(*n)))
 }
 
 fn in_subtree(dom: &Arena, n: usize, root: usize) -> bool {
@@ -58,7 +94,12 @@ fn first_cell_has_text(dom: &Arena, e: usize) -> bool {
 }
 
 pub fn check_html(html: &str, html_noids: Option<&str>, width: usize, rich: bool, st: &mut Stats, exclude_known: bool) -> Result<bool, String> {
-    let cfg = if rich { CfgSpec::rich() } else { CfgSpec::plain() };
+    check_html_cfg(html, html_noids, width, rich, false, st, exclude_known)
+}
+
+pub fn check_html_cfg(html: &str, html_noids: Option<&str>, width: usize, rich: bool, overflow: bool, st: &mut Stats, exclude_known: bool) -> Result<bool, String> {
+    let mut cfg = if rich { CfgSpec::rich() } else { CfgSpec::plain() };
+    cfg.overflow = overflow;
     let dom = odom::parse(html.as_bytes());
     let r = render_lines(&cfg, html.as_bytes(), width);
     if let Some(b) = r.bad() {
@@ -220,13 +261,52 @@ pub fn check_html(html: &str, html_noids: Option<&str>, width: usize, rich: bool
                 }
                 n
             };
-            if !starts_with_break && own_scope == escope && fl != marker_line {
+            if !starts_with_break && own_scope == escope && (fl != marker_line || before == 0) {
                 let _ = blockish;
-                if exclude_known && before == 0 {
-                    // the element's first character starts a line: either the word holding the marker
-                    // was hard-wrapped, or the marker was recorded right after the end of a block
-                    // (known finding KF-C14-inline-after-block)
-                    st.exclude("same-line not asserted: the element's first character starts a line (hard wrap / KF-C14-marker-line)");
+                // Text of e before its first visible character (white space: the wrap point may lie
+                // between the marker and the character; zero-width characters may stay behind).
+                let lead_in_e: usize = own.iter().take_while(|i| **i != first).map(|i| items[*i].1.chars().count()).sum::<usize>()
+                    + items[first].1.chars().take_while(|c| label_of(*c).is_none() || !is_visible(*c)).count();
+                // the visible text item of the same scope preceding the element, if any
+                let prev = (0..first).rev().find(|i| item_visible[*i] && item_scope[*i] == own_scope && !own.contains(i));
+                // no decoration text (`*`, `[`, `^{`, `#`, ...) is rendered between the marker and the first
+                // character, which could be wrapped apart from it
+                let fnode = items[first].0;
+                let neutral = |a: usize, blocks_too: bool| match dom.name(a) {
+                    Some("span" | "u" | "font" | "ins" | "s" | "del" | "strike") => true,
+                    Some("em" | "i" | "strong" | "b" | "code") => rich,
+                    Some("a") => rich || dom.attr(a, "href").is_none(),
+                    Some("p" | "div" | "ul" | "ol" | "li" | "blockquote" | "dl" | "dd" | "pre" | "table" | "thead" | "tbody" | "tfoot" | "tr" | "td" | "th") => blocks_too,
+                    _ => false,
+                };
+                // everything inside e before its first character is an element without decoration
+                let inner_plain = |blocks_too: bool| !dom.is_elem(fnode) && preorder(&dom, e).iter().skip(1).take_while(|n| **n != fnode).all(|n| neutral(*n, blocks_too));
+                let wrapped_only = match prev {
+                    // nothing rendered before it in its scope: no finished block can have taken the marker
+                    None => {
+                        // no text at all (not even white space, which a <pre> would render), line break,
+                        // rule or image before the element, and no decorated ancestor
+                        let order = preorder(&dom, own_scope);
+                        let upto = order.iter().position(|n| *n == e).unwrap_or(0);
+                        inner_plain(true)
+                            && neutral(e, true)
+                            && dom.ancestors(e).iter().take_while(|a| **a != own_scope && dom.is_elem(**a) && !matches!(dom.name(**a), Some("html" | "body"))).all(|a| neutral(*a, true))
+                            && order[..upto].iter().all(|n| dom.is_elem(*n) && !matches!(dom.name(*n), Some("br" | "hr" | "img")) || *n == 0)
+                    }
+                    Some(p) => {
+                        // the line break before the element comes from word wrapping ...
+                        (inner_plain(false) && neutral(e, false) && same_inline_run(&dom, items[p].0, fnode))
+                            // ... or the element opens a block of its own
+                            || (matches!(dom.name(e), Some("p" | "ul" | "ol" | "li" | "blockquote" | "pre" | "dd" | "table")) && inner_plain(true))
+                    }
+                };
+                if exclude_known && before == 0 && lead_in_e > 0 {
+                    st.exclude("same-line not asserted: white space / zero-width text between the marker and the element's first character");
+                } else if exclude_known && before == 0 && !wrapped_only {
+                    // the marker was recorded right after the end of a block (KF-C14-marker-line)
+                    st.exclude("same-line not asserted: the element's first character starts a line after a block boundary (KF-C14-marker-line)");
+                } else if fl == marker_line {
+                    st.class(if prev.is_some() { "same_line_held_for_element_starting_a_line_after_a_wrap" } else { "same_line_held_for_first_element_of_its_scope" });
                 } else {
                     return Err(show(format!("marker {:?} of <{}> is on line {} but the element's first character is on line {}", name, dom.name(e).unwrap_or("?"), marker_line, fl)));
                 }
@@ -249,7 +329,7 @@ pub fn check_frags(case: &FragCase, st: &mut Stats) -> Result<(), String> {
     gen::strip_ids(&mut plain.blocks);
     let html_noids = plain.to_html();
     st.sample(|| json!({"html": short(&html, 400), "width": case.width, "rich": case.rich}));
-    let nt = check_html(&html, Some(&html_noids), case.width, case.rich, st, true)?;
+    let nt = check_html_cfg(&html, Some(&html_noids), case.width, case.rich, case.overflow, st, true)?;
     if nt {
         st.nontrivial(case);
         st.nt_sample(|| json!({"html": short(&html, 400), "width": case.width}));
@@ -261,15 +341,33 @@ pub fn check_frags(case: &FragCase, st: &mut Stats) -> Result<(), String> {
 pub struct ExplicitFrag {
     pub html: String,
     pub width: usize,
+    #[serde(default)]
+    pub overflow: bool,
+    /// the same document without its ids / names (for "markers never change the text")
+    #[serde(default)]
+    pub noids: Option<String>,
+    /// the input is also in a known-finding class (which is then not asserted)
+    #[serde(default)]
+    pub lenient: bool,
 }
 
 pub fn check_explicit(case: &ExplicitFrag, st: &mut Stats) -> Result<(), String> {
-    check_html(&case.html, None, case.width, false, st, false).map(|_| ())
+    check_html_cfg(&case.html, case.noids.as_deref(), case.width, false, case.overflow, st, case.lenient).map(|_| ())
 }
 
 fn explicit_items() -> Vec<ExplicitFrag> {
-    let e = |h: &str, w: usize| ExplicitFrag { html: h.into(), width: w };
+    let e = |h: &str, w: usize| ExplicitFrag { html: h.into(), width: w, overflow: false, noids: None, lenient: false };
+    let o = |h: &str, n: &str| ExplicitFrag { html: h.into(), width: 1, overflow: true, noids: Some(n.into()), lenient: h.starts_with("<p>\u{4e00}</p>") || h.contains("\u{301}b") };
     vec![
+        // fixed by 97e9be7 (overflowing wide characters, markers and combining marks at width 1)
+        o("<p>\u{4e00}</p><em id=\"i0\">b</em>", "<p>\u{4e00}</p><em>b</em>"),
+        o("<p>\u{4e00}</p><em id=\"i0\"><p>b</p></em>", "<p>\u{4e00}</p><em><p>b</p></em>"),
+        o("<p><s>\u{4e00}<a id=\"\">\u{4e01}</a></s></p>", "<p><s>\u{4e00}<a>\u{4e01}</a></s></p>"),
+        o("<p>\u{4e00}\u{301}<span id=\"\">\u{4e01}</span></p>", "<p>\u{4e00}\u{301}<span>\u{4e01}</span></p>"),
+        o("\u{4e00}<u id=\"\">\u{301}b</u>", "\u{4e00}<u>\u{301}b</u>"),
+        // fixed by 894454a (marker stays with a piece hard-wrapped onto a new line)
+        e("<p>ab<a id=\"x\">cd</a></p>", 2),
+        e("<p>ab<span id=\"x\"><u>cd</u>ef</span></p>", 2),
         e("<p id=x>hhhhhhhh b</p>", 5),
         e("<p>a <span id=s>b</span> c</p><ul id=u><li id=l>d</li></ul>", 4),
         e("<table id=t><tr id=r><td id=c>e</td><td>f</td></tr></table><h2 id=h>g</h2>", 20),
@@ -279,14 +377,14 @@ fn explicit_items() -> Vec<ExplicitFrag> {
 
 fn frag_case() -> BoxedStrategy<FragCase> {
     let g = G::default().depth(2).with_ids();
-    (gen::doc(&g), prop_oneof![3 => 1usize..=100, 2 => 1usize..=8], any::<bool>())
-        .prop_map(|(mut doc, width, rich)| {
+    (gen::doc(&g), prop_oneof![3 => 1usize..=100, 2 => 1usize..=8], any::<bool>(), prop::bool::weighted(0.25))
+        .prop_map(|(mut doc, width, rich, overflow)| {
             drop_id_on_named_anchors(&mut doc.blocks);
             // KF-C13-invisible-block: an id keeps an otherwise empty block alive and changes the text
             gen::ensure_runs_visible(&mut doc.blocks);
             unlink_invisible(&mut doc.blocks);
             super::c03::sanitize_hrefs(&mut doc.blocks);
-            FragCase { doc, width, rich }
+            FragCase { doc, width, rich, overflow }
         })
         .boxed()
 }
@@ -349,7 +447,7 @@ pub fn property() -> Property {
     Property {
         id: "C14",
         level: "exploration",
-        rule: "grammar documents with one identifying character per text node and unique ids on random elements (p, div, span, em and other inline elements, a[name], img, li, ul, ol, blockquote, h*, pre, td, tr, table, dl/dt/dd), width 1..=100 with 40% of cases at width 1..=8 (first words hard-wrapped), plain and rich line output. Oracle from the oracle DOM and the linearised element stream of the output: every id on an element with visible text has exactly one FragmentStart; restricted to the characters of the element's scope (innermost table cell, or the document) the marker lies after every character preceding the element and before every character of the element; it is on the same line as the element's first character unless a <br> precedes that character inside the element; the string output is byte-identical with all ids removed. Non-trivial = a checked id inside a list item / quote / dd / table cell; distinct by the whole case.",
+        rule: "grammar documents with one identifying character per text node and unique ids on random elements (p, div, span, em and other inline elements, a[name], img, li, ul, ol, blockquote, h*, pre, td, tr, table, dl/dt/dd), width 1..=100 with 40% of cases at width 1..=8 (first words hard-wrapped), plain and rich line output, 25% with allow_width_overflow. Oracle from the oracle DOM and the linearised element stream of the output: every id on an element with visible text has exactly one FragmentStart; restricted to the characters of the element's scope (innermost table cell, or the document) the marker lies after every character preceding the element and before every character of the element; it is on the same line as the element's first character unless a <br> precedes that character inside the element - asserted for elements that start mid-line, for elements that start a line after word wrapping (soft or hard, incl. allow_width_overflow at width 1), for the first element of a scope and for p/ul/ol/li/blockquote/pre/dd/table opening their own block, whenever no white space, zero-width text or decoration separates marker and character (other line-starting elements: KF-C14-marker-line, counted); the string output is byte-identical with all ids removed. Non-trivial = a checked id inside a list item / quote / dd / table cell; distinct by the whole case.",
         assumptions: vec!["ids on elements without visible text are outside the claim (tolerated)", "id on table/thead/tbody/tr whose first cell has no text is a known finding (excluded by predicate, counted)"],
         hang_is_violation: false,
         subs: vec![
